@@ -279,6 +279,12 @@ pub fn scenario(stream: &str, r: &mut Rng, idx: u64) -> Vec<String> {
                 }
             }
         }
+        "huge" => {
+            // C14: wide key-length prefix next to a wide value-length prefix (4+5 bytes of framing and more)
+            let cases: [(u64, u64); 4] = [(1 << 21, 1 << 28), ((1 << 21) + 1, (1 << 28) - 1), (1 << 14, 1 << 28), ((1 << 21) - 1, (1 << 21) + 5)];
+            let (k, v) = cases[(idx % 4) as usize];
+            out.push(format!("!hugeentry {} {}", k, v));
+        }
         "corrupt" => {
             // C17: damaged block bytes of small uncompressed files (several blocks / index levels)
             let n = r.range(1, 8) as usize;
@@ -578,6 +584,7 @@ pub fn scenario(stream: &str, r: &mut Rng, idx: u64) -> Vec<String> {
                 if r.chance(1, 2) {
                     out.push(format!("srcopt {}={}", r.pick(&["choppy", "short", "intr"]), r.next() % 1000000));
                 }
+                out.push("!v1big".into());
                 out.push("v1".into());
                 out.extend(queries);
                 out.extend(seeks);
